@@ -113,3 +113,20 @@ Proof. induction n as [|n IH]; intros st z u H; [reflexivity|]. cbn [draws draw_
   rewrite (IH _ z (S u)) by (cbn [s_new]; now apply nth_error_bump). cbn [seq map].
   f_equal; [f_equal; lia|]. rewrite <- seq_shift, map_map. apply map_ext. intros i. f_equal. lia. Qed.
 End Draws.
+
+(* ------------------------------------------------------------------ tasks on loss objects *)
+(* when every task that occurs loads into its OWN object, every program-ordered interleaving lets each task optimise over its data *)
+Theorem run_objs_private_race_free reg_of sched : forall seen regs,
+  (forall s, In s sched -> reg_of (step_task s) = Some (step_task s)) ->
+  program_order seen sched = true -> (forall t, In t seen -> regs (Some t) = Some t) ->
+  Forall (fun tr => snd tr = Some (fst tr)) (run_objs reg_of regs sched).
+Proof. induction sched as [|[t|t] r IH]; intros seen regs Hp Ho Hr; cbn in *.
+  - constructor.
+  - apply (IH (t :: seen)); [intros s Hs; apply Hp; now right|exact Ho|].
+    pose proof (Hp (SetData t) (or_introl eq_refl)) as E. cbn [step_task] in E. rewrite E. cbn [obj_eqb]. intros u [<-|Hu].
+    + now rewrite Nat.eqb_refl.
+    + destruct (Nat.eqb_spec u t) as [->|_]; [reflexivity|now apply Hr].
+  - apply andb_true_iff in Ho. destruct Ho as [Hs Ho]. constructor.
+    + cbn. pose proof (Hp (Optimize t) (or_introl eq_refl)) as E0. cbn [step_task] in E0. rewrite E0. apply Hr.
+      apply existsb_exists in Hs. destruct Hs as [u [Hu E1]]. apply Nat.eqb_eq in E1. now subst.
+    + apply (IH seen); [intros s Hs'; apply Hp; now right|exact Ho|exact Hr]. Qed.
